@@ -3372,6 +3372,19 @@ static size_t ZSTD_buildSeqStore(ZSTD_CCtx* zc, const void* src, size_t srcSize)
                         (unsigned long)nbExternalSeqs
                     );
                     lastLLSize = blockCompressor(ms, &zc->seqStore, zc->blockState.nextCBlock->rep, src, srcSize);
+                    /* The block compressors below the optimal parser only maintain the first two repeat offsets.
+                     * With an external sequence producer the next block may be transcribed with repcode search,
+                     * which compares raw offsets with all three: rebuild the history the decoder will have
+                     * from the sequences just produced. */
+                    {   repcodes_t rep;
+                        seqDef const* seq = zc->seqStore.sequencesStart;
+                        ZSTD_memcpy(&rep, zc->blockState.prevCBlock->rep, sizeof(rep));
+                        for (; seq < zc->seqStore.sequences; ++seq) {
+                            U32 const ll0 = (ZSTD_getSequenceLength(&zc->seqStore, seq).litLength == 0);
+                            ZSTD_updateRep(rep.rep, seq->offBase, ll0);
+                        }
+                        ZSTD_memcpy(zc->blockState.nextCBlock->rep, &rep, sizeof(rep));
+                    }
             }   }
         } else {   /* not long range mode and no external matchfinder */
             ZSTD_blockCompressor const blockCompressor = ZSTD_selectBlockCompressor(
